@@ -15,7 +15,7 @@ def showEvent : Event → String
   | .hRefresh => "h refresh" | .hNameplateCompletions => "h npc"
   | .hChooseNameplate v => s!"h choosenp {if v then 1 else 0}"
   | .hWordCompletions => "h wc" | .hChooseWords => "h choosewords"
-  | .send => "send" | .close => "close" | .wsOpen => "open" | .wsClose => "drop" | .wsFail => "wsfail" | .tcpUp => "tcpup"
+  | .send => "send" | .close => "close" | .wsOpen => "open" | .wsClose => "drop" | .wsFail => "wsfail" | .tcpUp => "tcpup" | .wsClosing => "wsclosing"
   | .failInitial => "failinitial" | .svcStopped => "svcstopped"
   | .welcome e => s!"welcome {if e then 1 else 0}"
   | .claimed => "claimed" | .released => "released" | .closedResp => "closed" | .allocated => "allocated"
